@@ -10,7 +10,7 @@
 
 // Generator generation: replay files written before a generator learned a new kind of choice carry a lower number (or none = 1),
 // so that old regression tapes keep decoding to the case they were saved for.
-inline int g_tape_gen = 3;
+inline int g_tape_gen = 4;
 
 struct Tape {
   std::vector<uint32_t> w;
@@ -65,7 +65,7 @@ static inline bool tape_load(const char *path, std::vector<uint32_t> &out) {
 }
 static inline bool tape_save(const char *path, const std::vector<uint32_t> &w, const char *hdr = nullptr) {
   FILE *f = fopen(path, "w"); if (!f) return false;
-  fprintf(f, "# gen=3\n"); if (hdr) fprintf(f, "# %s\n", hdr);
+  fprintf(f, "# gen=4\n"); if (hdr) fprintf(f, "# %s\n", hdr);
   for (uint32_t x : w) fprintf(f, "%u\n", x);
   fclose(f); return true;
 }
